@@ -232,8 +232,13 @@ def run_corpus_property(run, mod_name, fn_name, descs, timeout=None, shrinker=No
     cases = gridlab.run_cases(descs, timeout=timeout)
     outs = check_cases(mod_name, fn_name, cases)
     fresh = sum(1 for c in cases if not c.cached)
-    run.extra["fresh_runs"] = run.extra.get("fresh_runs", 0) + fresh
-    run.extra["cache_hits"] = run.extra.get("cache_hits", 0) + len(cases) - fresh
+    st = run.extra.setdefault("_cache_stats", [0, 0])
+    st[0] += fresh
+    st[1] += len(cases) - fresh
+    run.extra["grid_cache_note"] = (
+        "%d descriptors executed by hypnotoad in this run, %d re-used from .cache (key = descriptor "
+        "+ content hash of /repo sources, so never across code changes)" % (st[0], st[1])
+    )
     for c, out in zip(cases, outs):
         lab = corpus.label(c.desc)
         run.bump("outcome/%s" % c.outcome)
